@@ -39,6 +39,17 @@ func matrixRows(shas func(src string) string) []row {
 	add("set-fields-ex", nil, []string{"SET", k("set-fields-ex"), "a", "FIELD", "f", "1.5", "FIELD", "g", `{"a":[1,2]}`, "FIELD", "s", "str ing", "EX", "5000", "POINT", "1", "2"})
 	add("set-overwrite-keeps-fields", [][]string{{"SET", k("set-overwrite-keeps-fields"), "a", "FIELD", "f", "9", "EX", "5000", "POINT", "1", "2"}},
 		[]string{"SET", k("set-overwrite-keeps-fields"), "a", "FIELD", "g", "2", "STRING", "now a string"})
+	// re-SETs that change exactly one attribute of an existing object
+	add("reset-add-ex", [][]string{{"SET", k("reset-add-ex"), "a", "FIELD", "f", "1", "POINT", "1", "2"}}, []string{"SET", k("reset-add-ex"), "a", "EX", "5000", "POINT", "1", "2"})
+	add("reset-drop-ex", [][]string{{"SET", k("reset-drop-ex"), "a", "FIELD", "f", "1", "EX", "5000", "POINT", "1", "2"}}, []string{"SET", k("reset-drop-ex"), "a", "POINT", "1", "2"})
+	add("reset-field-only", [][]string{{"SET", k("reset-field-only"), "a", "FIELD", "f", "1", "POINT", "1", "2"}}, []string{"SET", k("reset-field-only"), "a", "FIELD", "f", "2", "POINT", "1", "2"})
+	add("reset-geo-only", [][]string{{"SET", k("reset-geo-only"), "a", "FIELD", "f", "1", "POINT", "1", "2"}}, []string{"SET", k("reset-geo-only"), "a", "POINT", "1", "2.5"})
+	add("reset-z-only", [][]string{{"SET", k("reset-z-only"), "a", "POINT", "1", "2"}}, []string{"SET", k("reset-z-only"), "a", "POINT", "1", "2", "9"})
+	add("reset-string-ex", [][]string{{"SET", k("reset-string-ex"), "a", "STRING", "v"}}, []string{"SET", k("reset-string-ex"), "a", "EX", "5000", "STRING", "v"})
+	add("reset-identical", [][]string{{"SET", k("reset-identical"), "a", "FIELD", "f", "1", "EX", "5000", "POINT", "1", "2"}}, []string{"SET", k("reset-identical"), "a", "FIELD", "f", "1", "EX", "5000", "POINT", "1", "2"})
+	add("fset-same-then-other", [][]string{{"SET", k("fset-same-then-other"), "a", "FIELD", "f", "1", "POINT", "1", "2"}}, []string{"FSET", k("fset-same-then-other"), "a", "f", "1", "g", "2"})
+	add("expire-shorter", [][]string{{"SET", k("expire-shorter"), "keep", "POINT", "1", "1"}, {"SET", k("expire-shorter"), "a", "EX", "5000", "POINT", "1", "2"}}, []string{"EXPIRE", k("expire-shorter"), "a", "0.2"})
+	add("persist-then-stays", [][]string{{"SET", k("persist-then-stays"), "a", "EX", "0.6", "POINT", "1", "2"}}, []string{"PERSIST", k("persist-then-stays"), "a"})
 	add("set-nx", nil, []string{"SET", k("set-nx"), "a", "NX", "POINT", "1", "2"})
 	add("set-xx", [][]string{pt(k("set-xx"), "a")}, []string{"SET", k("set-xx"), "a", "XX", "POINT", "3", "4"})
 	add("fset", [][]string{pt(k("fset"), "a")}, []string{"FSET", k("fset"), "a", "f", "5", "g", "abc"})
